@@ -860,6 +860,88 @@ pub fn run(ctx: &mut Ctx) {
         }
     }
 
+    // ================= cleartext signature framework: what reaches the primitive is the RFC digest over the RFC 9580
+    // section 7.2 signed form of the text (dash-escaping undone, trailing SP / TAB of every line removed, CR LF)
+    {
+        let texts: [&str; 9] = [
+            "plain line\n",
+            "- tofu\n- rice\n",
+            "-- two dashes\r\n- one\r\n",
+            "trailing blank \nsecond\t\n",
+            "crlf with blanks \t\r\nnext \r\n",
+            "- dash and blank \r\n",
+            "",
+            "no final newline \t",
+            "From the start\n\n-----BEGIN PGP SIGNATURE-----\nend",
+        ];
+        for (ki, k) in ks.iter().enumerate() {
+            if k.name.contains("Rsa") || k.name.contains("Dsa") {
+                continue;
+            }
+            for (ti, text) in texts.iter().enumerate() {
+                if !ctx.mine() {
+                    continue;
+                }
+                let mut rng = ctx.rng("cleartext", (ki * 100 + ti) as u64);
+                let signed_form = rfc::armor::csf_signed_form(text);
+                let replay = json!({"key": k.name, "cleartext": text});
+                // (a) CleartextSignedMessage::sign with a recording signer
+                let rec = RecSigner::new(&k.key.primary_key);
+                let r = ctx.guarded("C11/sign/cleartext", || replay.clone(), || pgp::composed::CleartextSignedMessage::sign(&mut rng, text, &rec, &Password::empty()));
+                ctx.cover(&("cleartext", &k.name, ti));
+                ctx.seen("sign.types", format!("cleartext-v{}", if k.v6 { 6 } else { 4 }));
+                match r {
+                    Some(Ok(m)) => {
+                        let seen = rec.take();
+                        for sig in m.signatures() {
+                            judge_sign(ctx, "cleartext", sig, seen.clone(), &[signed_form.as_bytes()], json!({"base": replay, "api": "sign"}));
+                        }
+                    }
+                    Some(Err(e)) => {
+                        rec.take();
+                        ctx.violation("C11/sign/cleartext/error", format!("CleartextSignedMessage::sign failed: {e}"), replay.clone());
+                    }
+                    None => {
+                        rec.take();
+                    }
+                }
+                // (b) new_many: the text handed to the caller's signer is that signed form
+                let rec = RecSigner::new(&k.key.primary_key);
+                let hash = if k.v6 { HashAlgorithm::Sha512 } else { HashAlgorithm::Sha256 };
+                if k.key.primary_key.sign(&Password::empty(), hash, &vec![0x5A; if k.v6 { 64 } else { 32 }]).is_err() {
+                    continue;
+                }
+                let mut handed: Option<String> = None;
+                let r = ctx.guarded("C11/sign/cleartext", || replay.clone(), || {
+                    pgp::composed::CleartextSignedMessage::new_many(text, |t| {
+                        handed = Some(t.to_string());
+                        let mut c = mk_config(k.v6, SignatureType::Text, &k.key.primary_key, hash, &mut rng);
+                        c.hashed_subpackets = subpacket_set(1, &k.key.primary_key, &mut rng);
+                        Ok(vec![c.sign(&rec, &Password::empty(), t.as_bytes())?])
+                    })
+                });
+                match r {
+                    Some(Ok(m)) => {
+                        let seen = rec.take();
+                        if handed.as_deref() != Some(&signed_form[..]) {
+                            ctx.violation(
+                                "C11/sign/cleartext/new_many-signer-text-is-not-the-signed-form",
+                                format!("new_many handed {:?} to the signer, the RFC signed form of {:?} is {:?}", handed, text, signed_form),
+                                replay.clone(),
+                            );
+                        }
+                        for sig in m.signatures() {
+                            judge_sign(ctx, "cleartext-new_many", sig, seen.clone(), &[signed_form.as_bytes()], json!({"base": replay, "api": "new_many"}));
+                        }
+                    }
+                    _ => {
+                        rec.take();
+                    }
+                }
+            }
+        }
+    }
+
     // ================= key framing widths: unknown-algorithm keys with bodies > 255 and > 65535 octets
     for (i, len) in [10usize, 300, 65530, 70000].iter().enumerate() {
         for v in [4u8, 6] {
